@@ -740,6 +740,31 @@ func (w *World) ValJail(v *Val) PhaseResult {
 	return r
 }
 
+// ValSlash: the SDK's own punishment of a validator for an infraction `back` blocks ago (what x/slashing and
+// x/evidence do): a fraction of its tokens - and of the unbonding entries and redelegations begun since - is burned.
+// Afterwards a share of that validator is worth less than a token and unbonding entries hold less than their
+// initial balance.
+func (w *World) ValSlash(v *Val, pct int64, back int64) PhaseResult {
+	r := guard(func() error {
+		val, err := w.App.StakingKeeper.GetValidator(w.Ctx, v.ValAddr)
+		if err != nil {
+			return err
+		}
+		cons, err := val.GetConsAddr()
+		if err != nil {
+			return err
+		}
+		h := w.Height - back
+		if h < 1 {
+			h = 1
+		}
+		_, err = w.App.StakingKeeper.Slash(w.Ctx, cons, h, val.GetConsensusPower(sdk.DefaultPowerReduction), sdkmath.LegacyNewDecWithPrec(pct, 2))
+		return err
+	})
+	w.emit("ValSlash", Rec{"val": v.Name, "pct": int(pct), "back": int(back)}, r)
+	return r
+}
+
 func (w *World) ValUnjail(v *Val) PhaseResult {
 	r := guard(func() error {
 		val, err := w.App.StakingKeeper.GetValidator(w.Ctx, v.ValAddr)
